@@ -327,7 +327,7 @@ def c09(pid, tier, seed, t0):
     stages = [H("stops-checked", "c09", "checked", args={"quick": [], "thorough": ["--triples", "9000"]})]
     return run_stages(pid, tier, seed, t0, "fault_enumeration", stages,
                       required=("triples_enumerated", "stop_points_enumerated", "followup_searches",
-                                "fallback_to_first_picked_move", "pos_quiescence_heavy",
+                                "fallback_to_first_picked_move", "pos_quiescence_heavy", "expired_limit_searches",
                                 "completed_iterations_at_abort_1", "completed_iterations_at_abort_5",
                                 "prior_state_from_another_position", "prior_state_warm_same_position"),
                       assumptions=["exhaustive in k for each sampled (position, depth, prior state); the triples are "
@@ -386,7 +386,8 @@ def c13(pid, tier, seed, t0):
               H("tt-sizes-checked", "c19", "checked", args=["--histories", "64", "--max-ops", "400"], group="c13-tt")]
     return run_stages(pid, tier, seed, t0, "exploration", stages,
                       required=("option_Hash_values", "option_Threads_values", "option_Move_Overhead_values", "hash_0",
-                                "hash_1024", "values_set_before_first_search", "values_set_between_searches"),
+                                "hash_1024", "values_set_before_first_search", "values_set_between_searches",
+                                "sessions_setting_options_right_after_bestmove"),
                       assumptions=["the quantifier is what the binary itself advertises in its 'option' lines",
                                    "the free-text SyzygyPath option is outside the property"])
 
@@ -397,7 +398,8 @@ def c17(pid, tier, seed, t0):
     return run_stages(pid, tier, seed, t0, "exploration", stages,
                       required=("games_with_castle", "games_with_ep", "games_with_promo_q", "games_with_promo_r",
                                 "games_with_promo_b", "games_with_promo_n", "games_from_fen", "games_from_startpos",
-                                "games_with_session_step", "games_with_session_step_after_ucinewgame"),
+                                "games_with_session_step", "games_with_session_step_after_ucinewgame",
+                                "sessions_with_command_right_after_bestmove_delay"),
                       assumptions=["games and expectations come from refchess; the en-passant field of the FEN dump is "
                                    "accepted under any single recording convention"])
 
